@@ -411,19 +411,18 @@ theorem C20_container_hash (io : FloatIO) (m : FMap) (ind : Ind) (es : List Entr
 theorem C20_container_rec (io : FloatIO) (m : FMap) (v : Val) (h : PlainContainers m) :
     format io m v = refVal io m v := fmtVal_ref io v m Ind.default rfl h
 
-/-- non-vacuity of `C20_container_rec`: the default formats, three levels deep (a hash under the default format `%s`
-    takes that record's delimiter `[`) -/
+/-- non-vacuity of `C20_container_rec`: the default formats, three levels deep -/
 example : PlainContainers [] ∧
     refVal io0 [] (.array [.int 1, .array [.str ['a'], .hash [.mk (.int 2) (.array [])]]]) =
-      .text "[1, ['a', [2 => []]]]".toList := by
+      .text "[1, ['a', {2 => []}]]".toList := by
   refine ⟨by decide +kernel, by decide +kernel⟩
 
 /-- non-vacuity: nested containers, an element format from a per-type map, a changed separator and delimiter
-    (the nested hash falls to the default format `%s`, whose record carries the delimiter `[`) -/
+    (the nested hash falls to the default format `%s` and keeps its own delimiters) -/
 example : format io0 [(.arr, .mk { simpleFmt 'a' with ldelim := some '<', sep := some [';'] }
       (some [(.int, .mk (simpleFmt 'x') none)]))]
     (.array [.int 255, .array [.int 16, .str ['a']], .hash [.mk (.str ['k']) (.int 1)]]) =
-    .text "<ff; <10; a>; ['k' => 1]>".toList := by decide +kernel
+    .text "<ff; <10; a>; {'k' => 1}>".toList := by decide +kernel
 example : ChildrenText io0 [(.any, .mk (simpleFmt 'a') none)] defaultCF (arrayChildInd (simpleFmt 'a') Ind.default)
     [.int 1, .array [.int 2]] ["1".toList, "[2]".toList] := by
   simp only [ChildrenText]; decide +kernel
